@@ -21,9 +21,9 @@ def run(c, a):
     c.build_vh()
     thorough = c.tier == "thorough"
     c.rule = ("history = sequence of AddFace/SetQuery/SetScript/SetRuneCacheSize/ResolveFace; (G) every history up to length D over a small op alphabet enumerated by TLC "
-              "(FontMapGen.tla) and executed on the real FontMap, (V) seeded random histories of 25 steps over 3 families x 5 aspects x 6 runes x 5 scripts x cache sizes 0/1/2/4096; "
+              "(FontMapGen.tla) and executed on the real FontMap, (G) substitution histories (FontMapGenSubs.tla: a font named like a substitute, queries naming the substituted or a generic family, every tail of SetScript/Resolve), (V) seeded random histories of 25 steps over 3 (+3 substitute) families x 5 aspects x 6 runes x 5 scripts x cache sizes 0/1/2/4096, a third of them with generic / substituted query families; "
               "non-trivial = a ResolveFace of a rune already resolved earlier in the history after a database/query/script change; distinct = distinct histories")
-    c.assumptions = ["family names used lie outside the substitution tables, so substitution contributes no extra candidates",
+    c.assumptions = ["the documented priority (FontMap.tla) is judged when the substitution-expanded family list of the query adds no family of the map (fact read through a verif export); histories with generic / substituted families are judged for totality, history independence (FreshEq, Functional) and non-nil only",
                      "footprint coverage (runes, scripts) is taken as the intended rune set of each synthetic font (C11 checks coverage exactness)",
                      "all fonts are added through AddFace (user provided); system font index paths are covered by C16"]
     # M: implementation model (lazy candidates + LRU) refines the property spec
@@ -49,10 +49,21 @@ def run(c, a):
     prefix = os.path.join(c.scratch, "fm_gen")
     out = json.loads(c.vh(["fm", "exec", hp, prefix, shards], timeout=7200).stdout)
     traces = ["%s.%02d.ndjson" % (prefix, i) for i in range(shards)]
+    # G: substitution histories (fonts named like substitutes, queries with substituted / generic families)
+    cfg = os.path.join(c.specdir, "FontMapGenSubs.cfg")
+    gs = c.tlc("FontMapGenSubs", cfg="FontMapGenSubs.cfg", workers=1 if not thorough else NCPU, timeout=3600, heap="6g",
+               simulate=None if thorough else "num=4000", depth=None if thorough else 8, extra=None if thorough else ["-seed", str(c.seed)])
+    hp2 = os.path.join(c.scratch, "hist_subs.ndjson")
+    nh2 = extract_histories(gs.out, hp2)
+    if nh2 == 0:
+        raise Undecided("TLC generated no substitution history:\n" + gs.out[-1500:])
+    prefix = os.path.join(c.scratch, "fm_subs")
+    out3 = json.loads(c.vh(["fm", "exec", hp2, prefix, NCPU], timeout=7200).stdout)
+    traces += ["%s.%02d.ndjson" % (prefix, i) for i in range(NCPU)]
     prefix = os.path.join(c.scratch, "fm_rand")
     out2 = json.loads(c.vh(["fm", "rand", 40000 if thorough else 3000, 25, prefix, NCPU]).stdout)
     traces += ["%s.%02d.ndjson" % (prefix, i) for i in range(NCPU)]
-    c.extra["generated"] = {"tlc_histories": out["histories"], "random_histories": out2["histories"]}
+    c.extra["generated"] = {"tlc_histories": out["histories"], "tlc_substitution_histories": out3["histories"], "random_histories": out2["histories"]}
     traces = [t for t in traces if os.path.exists(t) and os.path.getsize(t) > 0]
     res = c.validate("FontMapV", traces, timeout=7200, heap="4g")
     for tp, rj, r in res:
